@@ -253,6 +253,7 @@ class Engine:
             raise OutOfSubset('inputs() must return a dict')
         kwargs = {str(k): v for k, v in inputs.items()}
         rec.leaves = g.leaves
+        CTX.path.init_pool(g.leaves)
         if cls.has('requires'):
             if not truth(I.call(cls.lookup('requires'), [], kwargs)):
                 raise PreFalse()
@@ -378,7 +379,12 @@ class Engine:
             vac['reason'] = 'precondition unsatisfiable or no path reaches the call (vacuous contract)'
         else:
             vac['status'] = 'undecided'
-            for pi, (conds, rec) in enumerate(recs[:8]):
+            w = self._numeric_witness(recs, tries=60)
+            if w is not None:
+                vac['status'] = 'discharged'
+                vac['queries'].append({'path': w[0], 'result': 'sat', 'ms': 0, 'backend': 'numeric witness (zeval)', 'expect': 'sat'})
+                out['pre_witness'] = w[1]
+            for pi, (conds, rec) in enumerate(recs[:8] if vac['status'] != 'discharged' else []):
                 st, model, ms, be = solve(conds, min(timeout_ms, 5000))
                 vac['ms'] += ms
                 vac['queries'].append({'path': pi, 'result': st, 'ms': ms, 'backend': be, 'expect': 'sat'})
